@@ -213,20 +213,52 @@ def run(prog, rep, tier, repo):
             if tag(t) == 'bin' and t[1] == 'Sub' and tag(t[2]) == 'index' and tag(t[3]) == 'index' and t[2][1] == t[3][1]:
                 if pconst(psub(poly(t[2][2]), poly(i))) == 0 and pconst(psub(poly(t[3][2]), poly(i))) == -1:
                     okdiff = True
-        if not okterm:
+        # recognition vs decision: a summand / difference closure of the expected *shape* but with other offsets is a violation;
+        # no closure of that shape at all is an idiom this rule does not read (NOT-DECIDED, no alarm)
+        seen_term = seen_diff = False
+        for ck, g in cls.items():
+            rv = g.return_values()
+            if len(rv) != 1:
+                continue
+            t = rv[0]
+            i_ = ('arg', 2, g.names.get(2))
+
+            def off(z, i_=i_):
+                return pconst(psub(poly(z[2]), poly(i_))) if tag(z) == 'index' else None
+            if tag(t) == 'bin' and t[1] == 'Mul':
+                for u, v in ((t[2], t[3]), (t[3], t[2])):
+                    if tag(u) == 'bin' and u[1] == 'Div' and tag(u[2]) == 'bin' and u[2][1] == 'Add' and \
+                            all(off(z) is not None for z in (u[2][2], u[2][3])) and tag(v) == 'index' and tag(v[1]) != 'item':
+                        seen_term = True       # index-by-counter form: offsets are decidable
+            if tag(t) == 'bin' and t[1] == 'Sub' and tag(t[2]) == 'index' and tag(t[3]) == 'index' and t[2][1] == t[3][1]:
+                seen_diff = True
+        undec = []
+        if seen_term and not okterm:
             problems.append('summand is not (y[i] + y[i-1])/2 * diff_x[i-1]')
-        if not okdiff:
+        elif not seen_term:
+            undec.append('no summand closure of the form (y[.] + y[.])/2 * w[.]')
+        if seen_diff and not okdiff:
             problems.append('diff_x is not x[i] - x[i-1] for i in 1..len')
+        elif not seen_diff:
+            undec.append('no difference closure x[.] - x[.]')
         # ranges 1..len(y) and 1..len(x)
         rngs = [z for c in f.calls() for a_ in c.args for z in subterms(a_) if tag(z) == 'range']
-        if not any(tag(z[1]) == 'const' and z[1][2] == 1 and z[2] == ('len', y) for z in rngs):
+        yr = [z for z in rngs if z[2] == ('len', y)]
+        if yr and not any(tag(z[1]) == 'const' and z[1][2] == 1 for z in yr):
             problems.append('the sum does not run over i in 1..y.len()')
-        # length assert when x is given
-        conds = [cn for gl in f.guards().values() for cn, v in gl if v is True]
-        if not any(tag(cn) == 'bin' and cn[1] == 'Eq' and ('len', y) in (cn[2], cn[3]) for cn in conds):
+        elif not yr:
+            undec.append('no index range over y')
+        # length assert when x is given (here or in a helper this function calls)
+        bodies_ = [f] + [prog.func(c.path) for c in f.calls() if c.path and c.path in pdb.bodies and c.path.startswith('integrate::')]
+        conds = [cn for g_ in bodies_ if g_ is not None for gl in g_.guards().values() for cn, v in gl if v is True]
+        if not any(tag(cn) == 'bin' and cn[1] == 'Eq' and any(tag(z) == 'len' for z in (cn[2], cn[3])) for cn in conds):
             problems.append('no assert_eq!(y.len(), x.len()) on the path that uses the abscissae')
-        (rep.viol if problems else rep.ok)('sampled-trapezoid', key, '; '.join(problems) if problems else
-                                           'sum_{i=1}^{len-1} (y[i]+y[i-1])/2 * (x[i]-x[i-1]) with equal lengths asserted', site_of(f.body))
+        if problems:
+            rep.viol('sampled-trapezoid', key, '; '.join(problems), site_of(f.body))
+        elif undec:
+            rep.undecided('sampled-trapezoid', key, 'idiom not read by this rule: ' + '; '.join(undec), site_of(f.body), proof=False)
+        else:
+            rep.ok('sampled-trapezoid', key, 'sum_{i=1}^{len-1} (y[i]+y[i-1])/2 * (x[i]-x[i-1]) with equal lengths asserted')
     rep.floor('sampled-trapezoid', 1, 'trapezoid')
 
     # ------------------------------------------------------------------ D4 Romberg
@@ -364,6 +396,14 @@ def run(prog, rep, tier, repo):
             (rep.viol if problems else rep.ok)('romberg-stop', key, '; '.join(problems) if problems else
                                                'early return of R[n,n] only for n >= 2, on |R[n,n] - R[n-1,n-1]| (relative or absolute) < eps', site_of(f.body))
     rep.floor('romberg-stop', 1, 'romberg')
+
+    # ---- D6 no scale-dependent threshold on the data inside any integration routine (helpers and closures included): e.g. an
+    # "evenly spaced" fast path that compares step differences with an absolute constant treats fine or nearly-even grids as uniform
+    from ..tol import check_scale_guards
+    keys = sorted(k for k in pdb.bodies if k.startswith('integrate::'))
+    check_scale_guards(prog, rep, 'data-threshold', keys, values=True, missing_ok=True,
+                       why='the rule then treats inputs differently according to their scale (abscissae 1e-9 apart, or nearly even grids, take the other path)')
+    rep.ok('data-threshold', 'data-threshold:scan', '%d integrate:: bodies scanned for data comparisons against absolute constants' % len(keys))
     return {}
 
 
